@@ -89,6 +89,33 @@ func c3Resume(kind int, dig string, c []byte, r *zzverif.Rng) (c3Partial, bool) 
 		a := int64(r.Range(1, int(L-1)))
 		data := bytes.Repeat([]byte{'E'}, int(L))
 		return c3Partial{dig: dig, hasData: true, data: data, parts: []c3Part{{0, a, a}, {a, L - a, 0}}}, true
+	case 6, 7: // 12 / 17 parts (read back in Glob order: -partial-10 before -partial-2): done / half / untouched in turn
+		n := int64(12)
+		if kind == 7 {
+			n = 17
+		}
+		if L < n {
+			return c3Partial{}, false
+		}
+		base := L / n
+		data := make([]byte, L)
+		var parts []c3Part
+		for i := int64(0); i < n; i++ {
+			off, size := i*base, base
+			if i == n-1 {
+				size = L - off
+			}
+			done := int64(0)
+			switch i % 3 {
+			case 0:
+				done = size
+			case 1:
+				done = size / 2
+			}
+			copy(data[off:off+done], c[off:off+done])
+			parts = append(parts, c3Part{off, size, done})
+		}
+		return c3Partial{dig: dig, hasData: true, data: data, parts: parts}, true
 	}
 	return c3Partial{}, false
 }
@@ -139,7 +166,7 @@ func c3Enum(root *zzverif.Rng, maxLayers int, emit func(*c3Case)) {
 	}
 	for nl := 1; nl <= maxLayers; nl++ {
 		for li := 0; li < nl; li++ {
-			for resume := 0; resume <= 5; resume++ {
+			for resume := 0; resume <= 7; resume++ {
 				r := root.Fork()
 				mk := func() (*c3Case, string, []byte, int) {
 					c := c3NewCase(fmt.Sprintf("enum-nl%d-res%d", nl, resume))
@@ -147,6 +174,9 @@ func c3Enum(root *zzverif.Rng, maxLayers int, emit func(*c3Case)) {
 					var content []byte
 					for i := 0; i < nl; i++ {
 						b := r.Bytes(r.Range(8, 24))
+						if resume >= 6 && i == li {
+							b = r.Bytes(r.Range(34, 48))
+						}
 						d := c.addLayer(b, false)
 						if i == li {
 							dig, content = d, b
@@ -204,7 +234,7 @@ func c3Enum(root *zzverif.Rng, maxLayers int, emit func(*c3Case)) {
 						case "d":
 							a.ls = []c3LScript{{dig: dig, direct: reps}}
 						}
-						c.attempts = []c3Attempt{a, {}, {}}
+						c.attempts = c3HonestTail(c, []c3Attempt{a})
 						emit(c)
 						continue
 					}
@@ -212,6 +242,9 @@ func c3Enum(root *zzverif.Rng, maxLayers int, emit func(*c3Case)) {
 					_, _, content0, np0 := mk()
 					_ = content0
 					for part := 0; part < np0; part++ {
+						if np0 > 3 && part != 1 && part != 2 && part != 10 && part != np0-1 {
+							continue // many parts: the parts around the Glob/number order difference
+						}
 						probe, _, _, _ := mk()
 						want := 8
 						if len(probe.partials) > 0 && part < len(probe.partials[0].parts) {
@@ -238,7 +271,7 @@ func c3Enum(root *zzverif.Rng, maxLayers int, emit func(*c3Case)) {
 								cf := c3ChunkFaults(r, w, np == 1)[k]
 								scripts := make([][]c3Chunk, part+1)
 								scripts[part] = c3Repeat(cf, rep)
-								c.attempts = []c3Attempt{{ls: []c3LScript{{dig: dig, chunks: scripts}}}, {}, {}}
+								c.attempts = c3HonestTail(c, []c3Attempt{{ls: []c3LScript{{dig: dig, chunks: scripts}}}})
 								emit(c)
 							}
 						}
@@ -470,6 +503,7 @@ func c3Random(r *zzverif.Rng) *c3Case {
 	}
 	// initial store
 	multi := map[string]bool{}
+	npartsOf := map[string]int{}
 	trueContent := map[string][]byte{}
 	for _, l := range c.reg.all() {
 		if len(l.ref) != 64 {
@@ -498,9 +532,14 @@ func c3Random(r *zzverif.Rng) *c3Case {
 		case x < 19:
 			c.blobs = append(c.blobs, c3Blob{l.ref, []byte("corrupt-preexisting")})
 		case x < 45:
-			if pa, ok := c3Resume(r.Range(1, 5), l.ref, content, r); ok {
+			kind := r.Range(1, 5)
+			if r.Chance(1, 4) {
+				kind = r.Range(6, 7)
+			}
+			if pa, ok := c3Resume(kind, l.ref, content, r); ok {
 				c.partials = append(c.partials, pa)
 				multi[l.ref] = len(pa.parts) > 1
+				npartsOf[l.ref] = len(pa.parts)
 			}
 		}
 	}
@@ -560,7 +599,7 @@ func c3Random(r *zzverif.Rng) *c3Case {
 			if r.Chance(3, 5) {
 				nparts := 1
 				if multi[l.ref] {
-					nparts = 3
+					nparts = npartsOf[l.ref]
 				}
 				for p := 0; p < nparts; p++ {
 					if nparts > 1 && r.Bool() {
@@ -574,7 +613,7 @@ func c3Random(r *zzverif.Rng) *c3Case {
 		}
 		c.attempts = append(c.attempts, a)
 	}
-	c.attempts = append(c.attempts, c3Attempt{}, c3Attempt{})
+	c.attempts = c3HonestTail(c, c.attempts)
 	return c
 }
 
@@ -805,10 +844,15 @@ func c3RunCase(t *testing.T, out *zzverif.Out, c *c3Case) {
 		before = after
 	}
 	// ---- L2: a later retry can still succeed (the last two attempts of every generated case are honest)
-	n := len(c.attempts)
-	if n >= 3 && initialGood && c3RegHonest(c) && lastClass != "ok" && !strings.HasPrefix(lastClass, "panic") &&
-		len(c.attempts[n-1].ls)+len(c.attempts[n-1].ms)+len(c.attempts[n-2].ls)+len(c.attempts[n-2].ms) == 0 {
-		detail := "last=" + lastClass
+	// An honest attempt that finds a corrupt layer removes it and stops, so a history that left k layers
+	// with bad resume state legitimately needs k+1 honest attempts: the verdict is only given when the
+	// history ends with that many.
+	honest := 0
+	for i := len(c.attempts) - 1; i >= 0 && len(c.attempts[i].ls)+len(c.attempts[i].ms)+len(c.attempts[i].tok) == 0; i-- {
+		honest++
+	}
+	if honest >= c3HonestNeeded(c) && initialGood && c3RegHonest(c) && lastClass != "ok" && !strings.HasPrefix(lastClass, "panic") {
+		detail := "last=" + c3Sanitize(lastClass)
 		for k, ps := range before.parts {
 			var total int64
 			for _, p := range ps {
@@ -937,6 +981,8 @@ func TestVerifC03(t *testing.T) {
 		switch {
 		case strings.HasPrefix(line, "pull "):
 			c3RunCase(t, out, c3Parse(line))
+		case strings.HasPrefix(line, "big "):
+			c3BigCase(t, out, line)
 		case strings.HasPrefix(line, "challenge "):
 			f := strings.Fields(line)
 			c3Challenge(out, string(zzverif.Unhex(f[2])))
@@ -985,6 +1031,12 @@ func TestVerifC03(t *testing.T) {
 	rr := root.Fork()
 	for i := 0; i < zzverif.EnvInt("VERIF_N", 300); i++ {
 		c3RunCase(t, out, c3Random(rr.Fork()))
+	}
+	// 4. resume from real multi-part state (>= 11 parts, > 1 GB virtual blob)
+	if zzverif.EnvInt("VERIF_NBIG", 1) > 0 {
+		for _, l := range c3BigLines(root.Fork(), os.Getenv("VERIF_TIER") == "thorough") {
+			c3BigCase(t, out, l)
+		}
 	}
 }
 
@@ -1146,4 +1198,20 @@ func c3ProbeVariant(t *testing.T) {
 		}
 	}
 	c3Variant = v
+}
+
+// c3HonestNeeded: one honest attempt per layer that may need cleaning, plus one.
+func c3HonestNeeded(c *c3Case) int {
+	set := map[string]bool{}
+	for _, l := range c.reg.all() {
+		set[l.ref] = true
+	}
+	return max(2, len(set)+1)
+}
+
+func c3HonestTail(c *c3Case, a []c3Attempt) []c3Attempt {
+	for i := c3HonestNeeded(c); i > 0; i-- {
+		a = append(a, c3Attempt{})
+	}
+	return a
 }
